@@ -101,12 +101,12 @@ SHAPES = {
     "date_bin": ("i = interface +cpp { m(d: date, b: binary) -> date; }", None),
     "gen_nested": ("i = interface +cpp { m(a: map<string, list<set<i32>>>) -> list<list<string>>; }", None),
     # ---- witnesses of known findings (see findings/C01.json) ----
-    "flags_all_first": ("f = flags { a = all; x; y; }", "compile:all-flag-before-ordinary"),
-    "flags_all_only": ("f = flags { a = all; }", "compile:all-flag-without-ordinary"),
-    "rec_opt_eq": ("r = record { a: i32?; b: string?; } deriving(eq)", "compile:java-optional-eq"),
-    "rec_ord_java": ("r = record { b: i32; } deriving(ord)", "compile:java-ord-without-comparable"),
+    "flags_all_first": ("f = flags { a = all; x; y; }", None),
+    "flags_all_only": ("f = flags { a = all; }", None),
+    "rec_opt_eq": ("r = record { a: i32?; b: string?; } deriving(eq)", None),
+    "rec_ord_java": ("r = record { b: i32; } deriving(ord)", None),
     "rec_bool_ord": ("r = record { a: bool; } deriving(ord)", "compile:ord-over-bool-or-optional"),
-    "rec_empty_eq": ("r = record { } deriving(eq)", "compile:empty-record-eq"),
+    "rec_empty_eq": ("r = record { } deriving(eq)", None),
     "rec_opt_enum": ("e = enum {a;}\nr = record { a: e?; b: list<e?>; }", "compile:optional-enum-across-jni"),
     "iface_opt_prim": ("i = interface +cpp { m(a: i32?) -> i32?; }", "compile:optional-primitive-across-cpp-proxy"),
     "iface_java_string": ("i = interface +java { n(s: string) -> string; }", "compile:java-proxy-returns-string-like"),
@@ -153,21 +153,12 @@ def classify(ast) -> list[str]:
         alltypes = []
         if k == "flags":
             mods = [("all" if i["all"] else "none" if i["none"] else "ord") for i in d["items"]]
-            if not d["items"]:
-                keys.add("compile:jni-empty-flags")
-            if "all" in mods and "ord" not in mods:
-                keys.add("compile:all-flag-without-ordinary")
-            if "all" in mods and "ord" in mods and mods.index("all") < len(mods) - 1 - mods[::-1].index("ord"):
-                keys.add("compile:all-flag-before-ordinary")
+            del mods
         if k == "enum" and any(i["n"].lower() in ("null", "eof", "errno", "true", "false", "min", "max") for i in d["items"]):
             keys.add("compile:macro-named-enumerator")
         if k == "record":
             alltypes = [f["t"] for f in d["fields"]]
             if "eq" in d["deriving"]:
-                if not d["fields"]:
-                    keys.add("compile:empty-record-eq")
-                if any("fn" not in f["t"] and f["t"]["o"] for f in d["fields"]):
-                    keys.add("compile:java-optional-eq")
                 for f in d["fields"]:
                     def chk(t):
                         dd = by_name.get(t["n"].lstrip("."))
@@ -175,7 +166,6 @@ def classify(ast) -> list[str]:
                             keys.add("compile:eq-over-non-eq-record")
                     walk_types(f["t"], chk)
             if "ord" in d["deriving"]:
-                keys.add("compile:java-ord-without-comparable")
                 if any("fn" not in f["t"] and (f["t"]["o"] or f["t"]["n"] == "bool") for f in d["fields"]):
                     keys.add("compile:ord-over-bool-or-optional")
             for f in d["fields"]:
